@@ -6,12 +6,14 @@ import Driver.MerkleEngine
 import Driver.PoolEngine
 import Driver.StoreEngine
 import Driver.OrderEngine
+import Driver.PermEngine
 
 def main (args : List String) : IO UInt32 := do
   let stdin ← IO.getStdin
   let stdout ← IO.getStdout
   match args with
   | ["sync"] => Driver.loop stdin stdout Driver.SyncEngine.step (); return 0
+  | ["perm"] => Driver.loop stdin stdout Driver.PermEngine.step (); return 0
   | ["order"] => Driver.loop stdin stdout Driver.OrderEngine.step {}; return 0
   | ["store"] => Driver.loop stdin stdout Driver.StoreEngine.step {}; return 0
   | ["pool"] => Driver.loop stdin stdout Driver.PoolEngine.step {}; return 0
